@@ -418,7 +418,7 @@ func runC08HostCalls(t *testing.T, tape *Tape, o *Outcome) *Outcome {
 			var op hcOp
 			switch object {
 			case 0:
-				op = hcOp{Kind: [...]string{"F", "G", "M", "MV"}[tape.Choose(4)], A: tape.Choose(40), B: 1 + tape.Choose(5)}
+				op = hcOp{Kind: [...]string{"F", "G", "M", "MV", "Sorted", "Emit"}[tape.Choose(6)], A: tape.Choose(40), B: 1 + tape.Choose(5)}
 			case 1:
 				op = hcOp{Kind: "Add", A: 1 + tape.Choose(9)}
 			case 2:
@@ -457,7 +457,7 @@ func runC08HostCalls(t *testing.T, tape *Tape, o *Outcome) *Outcome {
 			if _, evalErr = it.Eval(hostcall.Src); evalErr != nil {
 				return
 			}
-			for _, n := range []string{"F", "G", "MV", "Add", "Put", "Get", "Enq", "Deq"} {
+			for _, n := range []string{"F", "G", "MV", "Add", "Put", "Get", "Enq", "Deq", "Sorted", "Emit"} {
 				v, err := it.Eval("hostcall." + n)
 				if err != nil {
 					evalErr = err
@@ -486,6 +486,10 @@ func runC08HostCalls(t *testing.T, tape *Tape, o *Outcome) *Outcome {
 							out.V = fns["M"].(func(int) int)(op.A)
 						case "MV":
 							out.V = fns["MV"].(func(int) int)(op.A)
+						case "Sorted":
+							out.V = fns["Sorted"].(func(int) int)(op.A)
+						case "Emit":
+							out.V = fns["Emit"].(func(int) int)(op.A)
 						case "Add":
 							out.V = fns["Add"].(func(int) int)(op.A)
 						case "Put":
@@ -551,6 +555,10 @@ func runC08HostCalls(t *testing.T, tape *Tape, o *Outcome) *Outcome {
 				want = hostcall.T{K: 2}.M(in.A)
 			case "MV":
 				want = hostcall.T{K: 3}.M(in.A)
+			case "Sorted":
+				want = hostcall.Sorted(in.A)
+			case "Emit":
+				want = hostcall.Emit(in.A)
 			}
 			if out.V != want {
 				wrong = append(wrong, fmt.Sprintf("%s(%d,%d)=%d want %d (caller h%d)", in.Kind, in.A, in.B, out.V, want, op.ClientId))
